@@ -1,9 +1,9 @@
-SPECIFICATION GSpec
+SPECIFICATION HSpec
 CONSTANTS
   ArgPaths <- PathsF
   OpenFlags <- FlagsQ
   Datas <- DatasQ
-  ReadLens = {1, 3}
+  ReadLens = {2}
   Seeks <- SeeksQ
   RdCounts = {0}
   MaxHandles = 1
@@ -13,4 +13,4 @@ CONSTANTS
 INVARIANTS EmitState TreeOK
 PROPERTIES RenameIntoOwnSubtreeFails RootIsFixed FailureIsNoop
 CHECK_DEADLOCK FALSE
-VIEW view
+VIEW hview
